@@ -153,6 +153,29 @@ def main(tier, seed, replay=None):
             if not ok:
                 res.violation(dict(request='worker', cut='never opens the control connection'), 'the server stays blocked for more than 25 s by a client that never opens the control connection')
                 go = False
+        # a complete, well-formed worker request whose spawned child dies before it reports its identity (killed, crashed while
+        # unpickling its payload): the client is told, and the server goes on serving
+        if go:
+            from harness.props.c20 import ExitOnUnpickle, construct
+            from pyworkers.remote import RemoteWorker
+            for cls_ in (RemoteWorker, PersistentRemoteWorker):
+                o, x, d = construct(lambda: cls_(st.sq3, args=(ExitOnUnpickle(),), host=addr))
+                res.count('how:PChildDies'); res.case((cls_.__name__, 'child-dies-before-identity'), nontrivial=True)
+                sessions.append('mkSession RWorker PChildDies'); replies.append('Closed')
+                okd = False
+                for _ in range(40):
+                    if st.health(addr):
+                        okd = True
+                        break
+                    time.sleep(0.05)
+                sessions.append('mkSession (RCtxDelete (-12345)) PComplete'); replies.append('RBool true' if okd else 'NoReply')
+                if o != 'raised':
+                    res.violation(dict(request=cls_.__name__, cut='child dies before reporting its identity'), f'the constructor {o} instead of raising')
+                if not okd:
+                    res.violation(dict(request=cls_.__name__, cut='child dies before reporting its identity', server_alive=server.is_alive()),
+                                  'after a spawned child died before reporting its identity the server no longer answers a well-formed request')
+                    go = False
+                    break
         # the same for a worker request inside the live context: it is the context's helper which waits (and must survive)
         if go:
             t0 = time.time()
